@@ -249,6 +249,7 @@ def load(repo=REPO, profile="dev"):
         raise RuntimeError("fact file has only %d bodies (floor 900): extraction incomplete" % len(doc["fns"]))
     fx = Facts(doc, key)
     fx.built = built
+    fx.profile = profile
     fx.load_s = time.time() - t0
     fx.path = path
     _loaded[path] = fx
